@@ -753,6 +753,16 @@ func (e *env) afterQuiescenceChecks(s *session) {
 		if e.sess[rec.sess].dead && rec.state == opSent {
 			continue // stream ended: the operation may legitimately stay unanswered
 		}
+		if rs := e.sess[rec.sess]; rec.state == opHeld && !implHolds[id] && (rs.dead || rs.closed || rs.elec != e.maxElec) {
+			// held for a session that has gone or lost the primary role: nothing obliges a server to keep it
+			// (C06: "unless ... the stream ended, or its session lost the primary role"); one that discards it
+			// is followed - it will never resolve
+			if v, _, _ := e.model.Expect(rec.op); v == VHold {
+				e.probe("held operation of a departed or superseded session discarded by the server")
+				rec.state, rec.unacked = opFailed, true
+				continue
+			}
+		}
 		v, _, why := e.model.Expect(rec.op)
 		switch v {
 		case VHold:
